@@ -68,6 +68,16 @@ impl World {
         )
     }
 
+    /// The configuration as written to its file: `{CFGREL}` is the way from the
+    /// configuration file's directory to the working directory.
+    fn config_text(&self) -> String {
+        let rel = match &self.config_path {
+            Some(path) if !gen::parent(path).is_empty() => "../",
+            _ => "./",
+        };
+        self.config.to_text().replace("{CFGREL}", rel)
+    }
+
     fn all_lua(&self) -> Vec<&WSource> {
         self.sources.iter().chain(self.externals.iter()).collect()
     }
@@ -159,6 +169,7 @@ pub fn generate(seed: u64, knobs: &Knobs) -> C10Scenario {
         memory_safe: backend == Backend::Memory,
         allow_outside: knobs.layer != Layer::LW,
         allow_source_alias: false,
+        allow_late_luaurc: knobs.layer != Layer::LW,
     };
     let graph_mode = knobs.include_graph && knobs.layer == Layer::L1;
     let pk = if graph_mode {
@@ -226,6 +237,7 @@ pub fn generate(seed: u64, knobs: &Knobs) -> C10Scenario {
     if project.convert {
         parts.convert_sourcemap = Some("sourcemap.json".to_owned());
     }
+    parts.bundle_luau_aliases = project.config_alias.iter().cloned().collect();
     let config_text = parts.to_text();
     let mut invocation = gen::gen_invocation(
         &mut rk,
@@ -881,7 +893,7 @@ pub fn generate(seed: u64, knobs: &Knobs) -> C10Scenario {
                     continue;
                 }
                 world.config = parts;
-                let text = world.config.to_text();
+                let text = world.config_text();
                 match &world.config_path {
                     Some(path) => new_ops.push(Op::Edit {
                         path: path.clone(),
@@ -907,7 +919,7 @@ pub fn generate(seed: u64, knobs: &Knobs) -> C10Scenario {
                 // to its default configuration), created again, or both names present at
                 // once (an error for the whole pass until one of them goes away)
                 let names = [".darklua.json", ".darklua.json5"];
-                let text = world.config.to_text();
+                let text = world.config_text();
                 match &world.config_path {
                     Some(path) if rh.chance(1, 2) => {
                         let path = path.clone();
